@@ -28,6 +28,7 @@ NormalClock == Clk(At(2026, 9, 24, 5, 0, 0), 123)
 Clocks == { Clk(Epoch, 0), Clk(Epoch, 255), Clk(Epoch, 256), Clk(Inst(0, 65), 535), Clk(Inst(0, 65), 536),
             Clk(Inst(49, 61367), 295), Clk(Inst(49, 61367), 296),
             Clk(At(2023, 12, 31, 23, 59, 59), 999), Clk(At(2024, 2, 29, 12, 0, 0), 0), Clk(At(2024, 3, 1, 0, 0, 0), 1),
+            Clk(At(2028, 2, 29, 12, 34, 56), 0), Clk(At(2044, 2, 29, 0, 0, 0), 500), Clk(At(2076, 2, 29, 23, 59, 59), 0),
             Clk(At(2080, 2, 29, 0, 0, 0), 0), Clk(At(2096, 2, 29, 23, 59, 59), 0), Clk(At(2100, 2, 28, 23, 59, 59), 0),
             Clk(At(9979, 12, 21, 23, 59, 59), 999), NormalClock }
 Starts == { Epoch, At(1999, 12, 31, 23, 59, 59), At(2000, 2, 28, 23, 59, 59), At(2024, 2, 29, 0, 0, 0),
@@ -37,9 +38,10 @@ Naive == -1000
 Zones == IF Thorough THEN {Naive, 0, 330, -480} ELSE {Naive, 0, 330}
 IssuerIds == { C(8, 3), C(58, 1), C(300, 2) }                   \* text "iss", sequence-number component, 3-byte type number
 
+Lit(n) == IF n = 1 THEN <<"", "KEY", "">> ELSE <<"", "", "KEY", "">>
 ReqF(fn, subj, kn, iss, idform, sg, clock, start, dur, tz, tz2) ==
-  [fn |-> fn, subj |-> subj, keyname |-> KeyName(kn), publen |-> PubLen(subj), issuer |-> iss, idform |-> idform, sg |-> sg,
-   clock |-> clock, start |-> start, dur |-> dur, tz |-> tz, tz2 |-> tz2]
+  [fn |-> fn, subj |-> subj, keyname |-> KeyName(kn), lit |-> Lit(kn), publen |-> PubLen(subj), issuer |-> iss,
+   idform |-> idform, sg |-> sg, clock |-> clock, start |-> start, dur |-> dur, tz |-> tz, tz2 |-> tz2]
 \* the issuer id of a generic component as plain text, of any other as an encoded component
 Req(fn, subj, kn, iss, sg, clock, start, dur, tz) ==
   ReqF(fn, subj, kn, iss, IF fn = "derive" /\ iss.t = 8 /\ iss.l > 0 THEN "plain" ELSE "comp", sg, clock, start, dur, tz, tz)
@@ -66,12 +68,27 @@ NewCertZones == { ReqF("new_cert", "ec256", 1, C(8, 3), "comp", s, NormalClock, 
                     st \in { At(2024, 2, 28, 23, 59, 59), At(2000, 1, 1, 0, 0, 0) },
                     du \in (IF Thorough THEN { 1, 86400, 7305 * 86400 } ELSE { 86400 }),
                     z1 \in Zones \cup {-480}, z2 \in Zones \cup {-480} }
+\* identities that contain reserved-looking components at every depth: KEY (incl. two places before the real
+\* KEY marker, and doubled), self, cert-request
+LitLen(w) == IF w = "KEY" THEN 3 ELSE IF w = "self" THEN 4 ELSE IF w = "cert-request" THEN 12 ELSE 2
+RECURSIVE ShapeOf(_)
+ShapeOf(ws) == IF Len(ws) = 0 THEN <<>> ELSE <<C(8, LitLen(Head(ws)))>> \o ShapeOf(Tail(ws))
+Identities == { <<"KEY", "">>, <<"", "KEY", "">>, <<"KEY">>, <<"", "KEY">>, <<"KEY", "", "">>, <<"KEY", "KEY">>,
+                <<"KEY", "KEY", "KEY">>, <<"KEY", "self">>, <<"self", "">>, <<"", "cert-request">>, <<"", "", "KEY", "">> }
+WithKeyName(r, id) == [r EXCEPT !.keyname = ShapeOf(id) \o <<C(8, 3), C(8, 8)>>, !.lit = id \o <<"KEY", "">>]
+OddIdentities ==
+  { WithKeyName(r, id) :
+      r \in { Req("derive", "ec256", 1, C(8, 3), SgI("hmac", 32, 32, TRUE), NormalClock, At(2024, 5, 6, 7, 8, 9), 3600, Naive),
+               Req("self_sign", "ed25519", 1, C(8, 0), SgI("ed25519", 64, 64, TRUE), NormalClock, Epoch, 0, Naive),
+               Req("sign_req", "ed25519", 1, C(8, 0), SgI("ed25519", 64, 64, TRUE), NormalClock, Epoch, 0, Naive),
+               ReqF("new_cert", "ec256", 1, C(8, 3), "comp", SgI("hmac", 32, 32, TRUE), NormalClock, At(2024, 5, 6, 7, 8, 9), 3600, 0, 0) },
+      id \in Identities }
 DeriveClocks == { Req("derive", "ed25519", 1, C(8, 3), SgI("hmac", 32, 32, TRUE), ck, Epoch, 1, Naive) : ck \in Clocks }
 Own(fn) == UNION { { Req(fn, k, kn, C(8, 0), s, ck, Epoch, 0, Naive) :
                        kn \in (IF Thorough THEN {1, 2} ELSE {1}), s \in OwnSigners(k),
-                       ck \in (IF Thorough \/ k = "ec256" THEN Clocks ELSE { NormalClock, Clk(At(2024, 2, 29, 12, 0, 0), 0) }) } :
+                       ck \in (IF Thorough \/ k = "ec256" THEN Clocks ELSE { NormalClock, Clk(At(2024, 2, 29, 12, 0, 0), 0), Clk(At(2028, 2, 29, 12, 34, 56), 0) }) } :
                    k \in SubjTypes }
 
-ReqSpace == { q \in DeriveSigners \cup DeriveTimes \cup DeriveClocks \cup DeriveIssuerIds \cup NewCertZones
+ReqSpace == { q \in DeriveSigners \cup DeriveTimes \cup DeriveClocks \cup DeriveIssuerIds \cup NewCertZones \cup OddIdentities
                     \cup Own("self_sign") \cup Own("sign_req") : InScope(q) }
 =============================================================================
